@@ -847,3 +847,29 @@ func runR019(c *core.Ctx) {
 		})
 	}
 }
+
+func init() {
+	// what the fourth seeding round added to each property's claim (printed into the evidence files)
+	for id, text := range map[string]string{
+		"C01": "Round 4: the ROR2 empty-string marker is compared on raw input only (R01.9); an escaper consults only its own table, also through helpers (R01.1); required-field lists never share a backing array (R06.6).",
+		"C02": "Round 4: no net/url form parser touches a Rest.li query (R02.6); escapers consult only their own table (R01.1); marker on raw input (R01.9).",
+		"C03": "Round 4: R01.9 (marker on raw input); R07.1 clause: the map is opened only once a key is known to be kept.",
+		"C04": "Round 4: the decoded instance is returned together with its error (R04.8); where a caller discards an error the callee never pairs it with a nil value, errors that are a validator's verdict being discharged by the validated type of the argument (R04.9).",
+		"C05": "Round 4: copy helpers of the routing-tree snapshot return the fresh map on every path (R05.6).",
+		"C08": "Round 4: a printf-style wrapper forwards its format parameter unchanged (R08.7).",
+		"C09": "Round 4: the sort runs on every CFG path that emits two or more entries (R09.2); nested generated hashers use their own Hash parameter (R10.8).",
+		"C10": "Round 4: every comparison of two optional values delegates to, or itself satisfies, the nil/identity/value table (R10.4); nested generated hashers hash into the hash they are given (R10.8, [G]).",
+		"C11": "Round 4: generated fixed decoders copy only where len(source) == size is known (R11.2); the A-finite evaluator reports the excluded-nested-patch row instead of giving up.",
+		"C12": "Round 4: a memo in the generator is keyed by every parameter its value depends on (R12.9); corpus extended with records whose only include is EmptyRecord.",
+		"C13": "Round 4: a record-typed default is decoded into the new instance, never a bare allocation (R13.4, [G]); corpus extended with record-typed defaults.",
+		"C14": "Round 4: R14.4 restated on guards and the CFG (encoder gets the caller's verb; POST and cleared query before the request is built); R02.6.",
+		"C15": "Round 4: R02.6 (no form parsers on Rest.li queries).",
+		"C16": "Round 4: R01.9 (a batch key that is exactly '' survives).",
+		"C17": "Round 4: package-level sync.Map registries are not updated by Load-then-Store (R17.10).",
+		"C19": "Round 4: a kept host pointer ends the walk while the module's go directive is below 1.22 (R19.3).",
+	} {
+		if p := core.Properties[id]; p != nil {
+			p.Explanation += "  " + text
+		}
+	}
+}
